@@ -13,14 +13,17 @@ work / memory), and memory stays in proportion to the input (`Spec/Alloc.lean`; 
 `mem=<largest single request>@<stage>,<peak live bytes>@<stage>,<cumulative bytes> pmem=<peak during the two parse stages>,<bytes
 the parsed Package keeps>` — and this driver judges): single request ≤ 64 KiB + 64·|input| (`fails:alloc-single-<stage>`; the
 harness' own `alloc-excess:<stage>` prefix is the same criterion and names the stage that tripped it first), peak ≤ 64 KiB +
-128·|input| (`fails:alloc-live-<stage>`, or `fails:alloc-kept-quadratic` when the MODEL's account of the same input — the decoded
-entry data `Header::parse` keeps, `Hdr.parsePackageAcct` — is itself beyond the limit: the code as modelled does this, theorem
-`C04.harness_limit_refuted`), cumulative ≤ 1 MiB + 1024·|input| (`fails:alloc-total`). The `mem=` numbers are copied into the
+128·|input| (`fails:alloc-live-<stage>`; the MODEL's account of the same input — the decoded entry data `Header::parse` keeps,
+`Hdr.parsePackageAcct` — is never beyond that limit: theorems `C04.live_le`, `C04.harness_limit_holds`; before the budget of
+`parse_header` it could be, class `alloc-kept-quadratic`, which no longer exists), cumulative ≤ 1 MiB + 1024·|input|
+(`fails:alloc-total`). The `mem=` numbers are copied into the
 model line when they fit the model's account (what the parsed value keeps ≤ measured; measured peak of the parse stages ≤
 2 × the account + 16 KiB: vectors grow by doubling) and replaced by `mem=outside-model-account:…` otherwise — a broken tie.
 Op `alloc04 WHICH N S TY OFF CNT FILL`: the same stages on a package whose signature (`s`) / main (`h`) header has N identical
 entries (tag 1000, type TY, offset OFF, count CNT) over an S-byte store (FILL 0 = zeros, 1 = 'a's with a final NUL, 2 = 'a',NUL
 pairs); both sides build the bytes from the parameters, the observation ends with ` len=<n> fnv=<hash>` of the harness' bytes.
+N ≥ 2 entries over the same bytes (the OVERLAP family, DEFECT-T11) are refused by the byte budget of `parse_header` on both sides
+(`parse=err`, branch `alloc04-meta-overlap`; theorem `C04.overlap_refused`).
 The `iter=` field of uncompressed payloads IS predicted: `Acc.getFileEntries` (the header's file list) +
 `FileIter.collectMem` (`FileIterator::next` as a state machine on the in-memory stream, drained past error items like
 `collect()` does) give the number of items, their Ok / Err classes and the hash of their paths and contents
@@ -124,8 +127,7 @@ def hostileHandle (bs : Bytes) (impl : String) : String :=
       let memBad : List String := match mem with
         | some (single, sAt, peak, pAt, total) =>
           (if single > AllocSpec.singleLimit len then [s!"alloc-single-{sAt}"] else [])
-          ++ (if peak > AllocSpec.liveLimit len then
-                [if acct.dataKept > AllocSpec.liveLimit len then "alloc-kept-quadratic" else s!"alloc-live-{pAt}"] else [])
+          ++ (if peak > AllocSpec.liveLimit len then [s!"alloc-live-{pAt}"] else [])
           ++ (if total > AllocSpec.totalLimit len then ["alloc-total"] else [])
         | none => if toks.any (· == "abort") then [] else ["mem-token-missing"]
       let rest := rest.map fun t =>
